@@ -134,10 +134,10 @@ def h_status_line(line: str):
 
 
 def pre_total(f: int, s: str) -> bool:
-    return 0 <= f <= 3 and len(s) <= P.L and in_shard(f)
+    return 0 <= f <= 3 and len(s) <= (P.L0 if f == 0 else P.L) and in_shard(f)
 
 
-@harness(pre=pre_total, quick=dict(L=3, timeout=150), thorough=dict(L=6, timeout=1200),
+@harness(pre=pre_total, quick=dict(L=3, L0=2, timeout=150), thorough=dict(L=5, L0=4, timeout=1200),
          nshards=4, reach=["quoted_cookie", "with_port", "param"],
          units=["httputil._parse_header", "httputil._parseparam", "httputil.parse_cookie",
                 "httputil._unquote_cookie", "httputil.split_host_and_port"],
